@@ -11,6 +11,8 @@ import threading
 import traceback
 import _thread
 
+_RealThread = threading.Thread     # the kernel's own carrier threads are always real, whatever seam is installed
+
 from . import prng
 
 
@@ -24,7 +26,7 @@ class Diverged(Exception):
 
 class SimThreadState(object):
     __slots__ = ('tid', 'name', 'group', 'target', 'sem', 'real', 'started', 'finished', 'exc', 'exc_text',
-                 'cond', 'deadline', 'timed_out', 'traced', 'last_label', 'prio', 'dead', 'result', 'wait_label')
+                 'cond', 'deadline', 'timed_out', 'traced', 'last_label', 'prio', 'dead', 'result', 'wait_label', 'daemon')
 
     def __init__(self, tid, name, group, target, traced):
         self.tid = tid
@@ -47,6 +49,7 @@ class SimThreadState(object):
         self.dead = False         # killed with its process group: never scheduled again
         self.result = None
         self.wait_label = None
+        self.daemon = False
 
 
 class Scheduler(object):
@@ -168,7 +171,7 @@ class Kernel(object):
         on = getattr(self.sched, 'on_spawn', None)
         if on:
             on(th)
-        th.real = threading.Thread(target=self._bootstrap, args=(th,), name='sim-%d-%s' % (th.tid, name))
+        th.real = _RealThread(target=self._bootstrap, args=(th,), name='sim-%d-%s' % (th.tid, name))
         th.real.daemon = True
         th.started = True
         self.log.add('spawn', th.tid, name)
